@@ -262,11 +262,6 @@ theorem T15_models_onebody_dense (n : Nat) (m : Nat → Nat → R) (ψ : Lab →
     mulVec n (oneBodyDense n m) ψ = mulVec n (dense n (oneBodyForm n m)) ψ := by
   rw [T15_models_onebody, T15_dense_denotes n _ (wf_oneBodyForm n m)]
 
-theorem sum_range_succ_shift (T : Nat → R) (m : Nat) :
-    ((List.range (m + 1)).map T).sum = T 0 + ((List.range m).map (fun i => T (i + 1))).sum := by
-  rw [List.range_succ_eq_map, List.map_cons, List.sum_cons, List.map_map]
-  rfl
-
 /-- **TFIM, every n ≥ 2 and every field h**: the dense builder (ring sum of Kronecker
 chains, periodic last pair) is the operator of the symbolic form
 `−Σ_{i<n−1}(Z_i Z_{i+1} + h X_i) − (Z_{n−1} Z_0 + h X_{n−1})`. -/
@@ -320,6 +315,120 @@ theorem T15_models_tfim_full_proved : @T15_models_tfim_full R _ :=
 
 /-- non-vacuity: the TFIM form on two qubits is well formed. -/
 example : wf 2 (tfimForm 2 (3 : Int)) := wf_tfimForm 2 3 (by decide)
+
+/-! #### Heisenberg (and with it XXX, XXZ) -/
+
+theorem mulVec_heisDense_foldl (n : Nat) (cs : List (HComp R)) (M : DM R) (ψ : Lab → R) (x : Lab) :
+    mulVec n (cs.foldl (fun M c =>
+        mAdd (mAdd M (mSmul (-c.J) (buildSpin n c.mat (ringCond n)))) (mSmul c.h (oneBodyDense n c.mat))) M) ψ x
+      = mulVec n M ψ x + (cs.map (fun c =>
+          (-c.J) * mulVec n (buildSpin n c.mat (ringCond n)) ψ x
+            + c.h * mulVec n (oneBodyDense n c.mat) ψ x)).sum := by
+  induction cs generalizing M with
+  | nil => simp
+  | cons c cs ih =>
+    rw [List.foldl_cons, ih, mulVec_mAdd, mulVec_mAdd, mulVec_mSmul, mulVec_mSmul]
+    simp only [List.map_cons, List.sum_cons]
+    ring
+
+theorem heisTerm_denote (cs : List (HComp R)) (a b : Nat) (ψ : Lab → R) (x : Lab) :
+    (heisTerm cs a b).denote ψ x
+      = (cs.map (fun c => c.J * applyGate (g1 c.mat a) (applyGate (g1 c.mat b) ψ) x)).sum := by
+  unfold heisTerm
+  rw [denote_foldl_add]
+  simp only [PForm.denote, zero_mul, zero_add]
+  rfl
+
+theorem heisField_denote (n : Nat) (cs : List (HComp R)) (hk : ∀ c ∈ cs, c.keep = false → c.h = 0)
+    (ψ : Lab → R) (x : Lab) :
+    (heisField n cs).denote ψ x
+      = (cs.map (fun c => c.h * ((List.range n).map (fun q => applyGate (g1 c.mat q) ψ x)).sum)).sum := by
+  unfold heisField
+  rw [denote_foldl_foldl_add]
+  simp only [PForm.denote, zero_mul, zero_add]
+  have e : ∀ q ∈ List.range n,
+      ((cs.filter (·.keep)).map (fun c => c.h * applyGate (PSym.gate { mat := c.mat, q := q }) ψ x)).sum
+        = (cs.map (fun c => c.h * applyGate (g1 c.mat q) ψ x)).sum := by
+    intro q _
+    rw [sum_filter_of_zero (fun c : HComp R => c.keep)
+      (fun c => c.h * applyGate (PSym.gate { mat := c.mat, q := q }) ψ x) cs
+      (fun c hc hkeep => by rw [hk c hc hkeep, zero_mul])]
+    rfl
+  rw [List.map_congr_left e, list_sum_comm]
+  congr 1
+  apply List.map_congr_left
+  intro c _
+  rw [List.sum_map_mul_left]
+
+/-- **Heisenberg model, every n ≥ 2, all couplings and fields, any 2×2 matrices** (hence
+XXX and XXZ, which call it): the dense builder — for each of X, Y, Z the ring sum of
+Kronecker chains with the periodic last pair times `-J`, plus `h` times the one-body
+matrix — is the operator of the symbolic form
+`−Σ_{i<n−1} Σ_σ J_σ σ_i σ_{i+1} − Σ_σ J_σ σ_{n−1} σ_0 − Σ_q Σ_{σ: h_σ ≠ 0} h_σ σ_q`. -/
+theorem T15_models_heisenberg (n : Nat) (cs : List (HComp R)) (hn : 2 ≤ n)
+    (hk : ∀ c ∈ cs, c.keep = false → c.h = 0) (ψ : Lab → R) :
+    mulVec n (heisDense n cs) ψ = (heisForm n cs).denote ψ := by
+  obtain ⟨m, rfl⟩ : ∃ m, n = m + 1 := ⟨n - 1, by omega⟩
+  have hm : 1 ≤ m := by omega
+  funext x
+  unfold heisDense heisForm
+  rw [mulVec_heisDense_foldl, mulVec_mZero, zero_add]
+  simp only [PForm.denote, Nat.add_sub_cancel]
+  rw [denote_foldl_add, heisField_denote _ _ hk, heisTerm_denote]
+  simp only [PForm.denote, zero_mul, zero_add, heisTerm_denote]
+  rw [list_sum_comm (fun (i : Nat) (c : HComp R) =>
+      c.J * applyGate (g1 c.mat i) (applyGate (g1 c.mat (i + 1)) ψ) x)]
+  rw [← List.sum_map_mul_left, ← List.sum_map_mul_left, ← List.sum_map_mul_left,
+    ← List.sum_map_add, ← List.sum_map_add]
+  congr 1
+  apply List.map_congr_left
+  intro c _
+  unfold oneBodyDense
+  rw [mulVec_buildSpin, ring_sum c.mat hm, mulVec_mSmul, mulVec_buildSpin, site_sum,
+    List.sum_map_mul_left]
+  ring
+
+theorem wf_heisForm (n : Nat) (cs : List (HComp R)) (hn : 2 ≤ n) : wf n (heisForm n cs) := by
+  have hterm : ∀ a b, a < n → b < n → wf n (heisTerm cs a b) := by
+    intro a b ha hb
+    apply wf_foldl_add n _ _ (.const 0) (by simp [wf])
+    intro c _
+    exact ⟨ha, hb⟩
+  refine ⟨⟨?_, ?_⟩, ?_⟩
+  · apply wf_foldl_add n _ _ (.const 0) (by simp [wf])
+    intro i hi
+    have := List.mem_range.mp hi
+    exact hterm i (i + 1) (by omega) (by omega)
+  · exact hterm (n - 1) 0 (by omega) (by omega)
+  · show wf n (heisField n cs)
+    unfold heisField
+    have key : ∀ (l : List Nat) (a : PForm R), wf n a → (∀ q ∈ l, q < n) →
+        wf n (l.foldl (fun acc q => (cs.filter (·.keep)).foldl
+          (fun acc c => PForm.add acc (.smul c.h (.sym { mat := c.mat, q := q }))) acc) a) := by
+      intro l
+      induction l with
+      | nil => intro a ha _; exact ha
+      | cons q l ih =>
+        intro a ha hl
+        rw [List.foldl_cons]
+        apply ih _ _ (fun q' hq' => hl q' (List.mem_cons_of_mem _ hq'))
+        apply wf_foldl_add n _ _ a ha
+        intro c _
+        exact hl q (List.mem_cons_self ..)
+    exact key _ _ (by simp [wf]) (fun q hq => List.mem_range.mp hq)
+
+/-- the dense Heisenberg builder equals the dense matrix of the symbolic form (as operators). -/
+theorem T15_models_heisenberg_dense (n : Nat) (cs : List (HComp R)) (hn : 2 ≤ n)
+    (hk : ∀ c ∈ cs, c.keep = false → c.h = 0) (ψ : Lab → R) :
+    mulVec n (heisDense n cs) ψ = mulVec n (dense n (heisForm n cs)) ψ := by
+  rw [T15_models_heisenberg n cs hn hk, T15_dense_denotes n _ (wf_heisForm n cs hn)]
+
+/-- non-vacuity: XXZ-like components (no field: the field terms are dropped). -/
+example : ∀ c ∈ ([⟨-1, 0, false, pauliX⟩, ⟨-2, 0, false, pauliZ⟩] : List (HComp Int)),
+    c.keep = false → c.h = 0 := by
+  intro c hc _
+  simp only [List.mem_cons, List.not_mem_nil, or_false] at hc
+  rcases hc with rfl | rfl <;> rfl
 
 end models
 
